@@ -29,8 +29,11 @@ GROW = ["Vec::<T, A>::push", "Vec::<T, A>::extend_from_slice", "Vec::<T, A>::res
 def limit_cmp_blocks(fn, limit_locals):
     """blocks that compute an ordering comparison one side of which derives from the limit parameter"""
     fl = FL.flow(fn)
+    live = CF.cfg(fn).live()
     out = []
     for b, blk in enumerate(fn.blocks):
+        if b not in live:
+            continue
         for st in blk[0]:
             rv = st[2]
             if rv[0] == "bin" and rv[1] in ("Gt", "Ge", "Lt", "Le"):
